@@ -250,7 +250,11 @@ struct HalfaggSim {
         if ((v != 0) != mv) { r.violate("C17", "aggverify_mismatch", "secp256k1_schnorrsig_aggverify", "library verdict " + std::to_string(v) + " != specification verdict " + std::to_string(mv) + " (n=" + std::to_string(k) + ", len=" + std::to_string(v_agg.size()) + ")"); return; }
         bool honest = agg_intact && list_intact && !A.used_altered;
         if (honest && !v) { r.violate("C17", "completeness", "secp256k1_schnorrsig_aggverify", "aggregate of honest signatures rejected (n=" + std::to_string(k) + ")"); return; }
-        if (!honest && v && !(agg_intact && list_intact)) {
+        if (!honest && v && k == 0) {
+            // the faults produced the one statement that is valid without any signature: the empty list with its aggregate s = 0
+            // (32 zero bytes). Library and specification agree that it verifies; nothing was forged.
+            r.probe("empty_statement_accepted");
+        } else if (!honest && v && !(agg_intact && list_intact)) {
             // altered bytes accepted: only legitimate if the alteration reproduced the honest bytes
             r.violate("C17", "soundness", "secp256k1_schnorrsig_aggverify", "altered aggregate or (key, message) list accepted"); return;
         }
